@@ -21,6 +21,14 @@ package keep_fields
 // same selector list are the elements of one array that a REAL `split` action splits on a RUNNING pipeline
 // [split, this plugin] (real processor.Spawn); the children and the same documents sent as ordinary events are
 // compared with the same declarative expectation.
+//
+// INSTANCES (the per-depth buffers belong to ONE plugin instance): for a seeded sample of selector lists
+// (VERIF_STRESS) N >= 4 real plugin instances are started from ONE shared Config object, the way the pipeline does
+// (pipeline.newProc / processor.start: one Config, one plugin per processor), and run concurrently for a bounded time,
+// each on its own goroutine with its own documents (the group's documents in its own rotation; marker members
+// widened to its own number (< 100) of members with its own names, so that the delete lists differ).  Every single
+// result is compared with the declarative expectation; the achieved overlap (Do calls that ran while another
+// instance was inside Do) is measured and reported.
 
 import (
 	"bufio"
@@ -33,6 +41,7 @@ import (
 	"sort"
 	"strings"
 	"sync"
+	"sync/atomic"
 	"testing"
 	"time"
 
@@ -72,7 +81,9 @@ type c18Node struct {
 
 // value encoding: leaf -> code; object -> [0,k1,v1,k2,v2,...]; array -> [1,e1,e2,...].
 // A member with the marker key is replaced by `width` members junk_000.. with the same value.
-func c18Build(v interface{}, width int) *c18Node {
+func c18Build(v interface{}, width int) *c18Node { return c18BuildP(v, width, "junk_") }
+
+func c18BuildP(v interface{}, width int, prefix string) *c18Node {
 	switch x := v.(type) {
 	case float64:
 		if _, ok := c18LeafText[int(x)]; !ok {
@@ -89,8 +100,8 @@ func c18Build(v interface{}, width int) *c18Node {
 				code := int(x[i].(float64))
 				if code == c18JunkKey {
 					for j := 0; j < width; j++ {
-						n.keys = append(n.keys, fmt.Sprintf("junk_%03d", j))
-						n.vals = append(n.vals, c18Build(x[i+1], width))
+						n.keys = append(n.keys, fmt.Sprintf("%s%03d", prefix, j))
+						n.vals = append(n.vals, c18BuildP(x[i+1], width, prefix))
 					}
 					continue
 				}
@@ -99,14 +110,14 @@ func c18Build(v interface{}, width int) *c18Node {
 					panic(fmt.Sprintf("bad key code %v", x[i]))
 				}
 				n.keys = append(n.keys, name)
-				n.vals = append(n.vals, c18Build(x[i+1], width))
+				n.vals = append(n.vals, c18BuildP(x[i+1], width, prefix))
 			}
 			return n
 		}
 		n := &c18Node{kind: 2}
 		for i := 1; i < len(x); i++ {
 			n.keys = append(n.keys, "")
-			n.vals = append(n.vals, c18Build(x[i], width))
+			n.vals = append(n.vals, c18BuildP(x[i], width, prefix))
 		}
 		return n
 	}
@@ -356,20 +367,22 @@ func c18Short(s string) string {
 }
 
 type c18Mismatch struct {
-	Plugin string   `json:"plugin"`
-	Kind   string   `json:"kind"` // key_order | content | invalid_json | panic
-	AsSwap bool     `json:"as_swap_delete_model"`
-	Event  int      `json:"event"` // n-th Do of the plugin instance
-	EvKind string   `json:"event_kind"` // regular | child | child_parent | pipeline_regular | pipeline_child
-	Width  int      `json:"width"` // 0 = not a widened case; else the number of junk members per marker
-	Order  string   `json:"width_order,omitempty"`
-	Fam    int      `json:"fam"`
-	Doc    string   `json:"doc"`
-	Fields []string `json:"fields"`
-	Want   string   `json:"want"`
-	Got    string   `json:"got"`
-	Panic  string   `json:"panic,omitempty"`
-	Case   string   `json:"case"`
+	Plugin    string   `json:"plugin"`
+	Kind      string   `json:"kind"` // key_order | content | invalid_json | panic
+	AsSwap    bool     `json:"as_swap_delete_model"`
+	Event     int      `json:"event"`      // n-th Do of the plugin instance
+	EvKind    string   `json:"event_kind"` // regular | child | child_parent | pipeline_regular | pipeline_child
+	Width     int      `json:"width"`      // 0 = not a widened case; else the number of junk members per marker
+	Order     string   `json:"width_order,omitempty"`
+	Instances int      `json:"instances,omitempty"` // concurrent runs: plugin instances started from the one config
+	Instance  int      `json:"instance,omitempty"`
+	Fam       int      `json:"fam"`
+	Doc       string   `json:"doc"`
+	Fields    []string `json:"fields"`
+	Want      string   `json:"want"`
+	Got       string   `json:"got"`
+	Panic     string   `json:"panic,omitempty"`
+	Case      string   `json:"case"`
 }
 
 type c18Event struct {
@@ -622,12 +635,50 @@ func TestVerifC18(t *testing.T) {
 		ef.Close()
 	}
 
+	// instances: N plugins from one shared config, concurrently
+	stressGroups, stressInstances := 0, 0
+	var stressDo, stressOverlap int64
+	if sf := os.Getenv("VERIF_STRESS"); sf != "" {
+		ms, _ := time.ParseDuration(os.Getenv("VERIF_STRESS_MS") + "ms")
+		if ms <= 0 {
+			ms = 300 * time.Millisecond
+		}
+		ef, err := os.Open(sf)
+		if err != nil {
+			t.Fatal(err)
+		}
+		es := bufio.NewScanner(ef)
+		es.Buffer(make([]byte, 1<<20), 1<<24)
+		for es.Scan() {
+			var group []string
+			if err := json.Unmarshal(es.Bytes(), &group); err != nil || len(group) < 4 {
+				bad++
+				continue
+			}
+			mm, nDo, nOver, inst := c18Stress(group, ms)
+			stressGroups++
+			stressInstances = inst
+			stressDo += nDo
+			stressOverlap += nOver
+			events += int(nDo)
+			for _, m := range mm {
+				class := fmt.Sprintf("%s/%v/%s", m.Kind, m.AsSwap, m.EvKind)
+				counts[class]++
+				if len(kept[class]) < perClass {
+					kept[class] = append(kept[class], m)
+				}
+			}
+		}
+		ef.Close()
+	}
+
 	var mms []*c18Mismatch
 	for _, l := range kept {
 		mms = append(mms, l...)
 	}
 	res := map[string]interface{}{"plugin": c18Plugin, "executed": executed, "events": events, "wide_cases": wide, "bad_lines": bad,
 		"e2e_groups": e2eGroups, "e2e_documents": e2eDocs,
+		"stress_groups": stressGroups, "stress_instances": stressInstances, "stress_do_calls": stressDo, "stress_overlapping_do_calls": stressOverlap,
 		"nontrivial": nontrivial, "reordering_predicted": reordering, "predictor_disagrees": predictorOff,
 		"mismatch_counts": counts, "mismatches": mms}
 	b, _ := json.Marshal(res)
@@ -766,4 +817,123 @@ wait:
 		}
 	}
 	return mm, len(evs)
+}
+
+type c18StressDoc struct {
+	c                *c18Case
+	doc, want, model string
+	verdict          map[string]*c18Mismatch // judged results that differ from `want` (nil value = fine)
+}
+
+// c18Stress: the cases of the group share the selector list.  ONE config object, n plugin instances started from it
+// (as pipeline.newProc + processor.start do), every instance on its own goroutine for `dur`.
+func c18Stress(group []string, dur time.Duration) (mm []*c18Mismatch, nDo, nOverlap int64, n int) {
+	var cases []*c18Case
+	for _, line := range group {
+		c, err := c18ParseCase(line)
+		if err != nil {
+			panic("harness: bad stress case " + line)
+		}
+		cases = append(cases, c)
+	}
+	n = runtime.GOMAXPROCS(0)
+	if n < 4 {
+		n = 4
+	}
+	if n > 8 {
+		n = 8
+	}
+	first := cases[0]
+
+	// the ONE config of the action, shared by all instances
+	_, cf := factory()
+	cf.(*Config).Fields = append([]string(nil), first.Sels...)
+	test.NewConfig(cf, nil)
+
+	plugins := make([]*Plugin, n)
+	docs := make([][]*c18StressDoc, n)
+	for i := 0; i < n; i++ {
+		pl, _ := factory()
+		plugins[i] = pl.(*Plugin)
+		plugins[i].Start(cf, test.NewEmptyActionPluginParams())
+		width, prefix := 40+7*i, fmt.Sprintf("j%d_", i) // < 100 names to delete per level, own names
+		for j := range cases {
+			c := cases[(i+j)%len(cases)]
+			doc, want := c18BuildP(c.doc, width, prefix), c18BuildP(c.want, width, prefix)
+			docs[i] = append(docs[i], &c18StressDoc{c: c, doc: doc.text(), want: want.text(),
+				model: c18Predict(c, doc, want).text(), verdict: map[string]*c18Mismatch{}})
+		}
+	}
+
+	var inDo int32
+	var totalDo, overlapDo int64
+	var mu sync.Mutex
+	var wg sync.WaitGroup
+	start := make(chan struct{})
+	deadline := time.Now().Add(dur)
+	for i := 0; i < n; i++ {
+		wg.Add(1)
+		go func(i int) {
+			defer wg.Done()
+			defer func() {
+				if r := recover(); r != nil {
+					mu.Lock()
+					mm = append(mm, &c18Mismatch{Plugin: c18Plugin, Kind: "panic", EvKind: "concurrent", Fam: first.Fam, Fields: first.Sels,
+						Panic: fmt.Sprint(r), Case: first.Line, Instances: n})
+					mu.Unlock()
+				}
+			}()
+			p := plugins[i]
+			root := insaneJSON.Spawn()
+			defer insaneJSON.Release(root)
+			var buf []byte
+			var did, over int64
+			<-start
+			for it := 0; ; it++ {
+				if it&63 == 0 && time.Now().After(deadline) {
+					break
+				}
+				d := docs[i][it%len(docs[i])]
+				if err := root.DecodeString(d.doc); err != nil {
+					panic("harness: stress document does not decode")
+				}
+				c := atomic.AddInt32(&inDo, 1)
+				res := p.Do(&pipeline.Event{Root: root})
+				c2 := atomic.AddInt32(&inDo, -1)
+				did++
+				if c > 1 || c2 > 0 {
+					over++
+				}
+				buf = root.Encode(buf[:0])
+				if res == pipeline.ActionPass && string(buf) == d.want {
+					continue
+				}
+				got := string(buf)
+				if _, seen := d.verdict[got]; seen {
+					continue
+				}
+				m := &c18Mismatch{Plugin: c18Plugin, Event: it + 1, EvKind: "concurrent", Instances: n, Instance: i + 1, Fam: d.c.Fam,
+					Doc: c18Short(d.doc), Fields: first.Sels, Want: c18Short(d.want), Got: c18Short(got), Case: d.c.Line}
+				if res != pipeline.ActionPass {
+					m.Kind, m.Panic = "content", fmt.Sprintf("Do returned %v", res)
+				} else {
+					m = c18Judge(m, got, d.want, d.model)
+				}
+				d.verdict[got] = m
+				if m != nil {
+					mu.Lock()
+					mm = append(mm, m)
+					mu.Unlock()
+				}
+			}
+			atomic.AddInt64(&totalDo, did)
+			atomic.AddInt64(&overlapDo, over)
+		}(i)
+	}
+	close(start)
+	wg.Wait()
+	for _, p := range plugins {
+		p.Stop()
+	}
+	return mm, totalDo, overlapDo, n
 }
